@@ -5,12 +5,12 @@ import random
 import common
 import export
 import c07lib as L
-from common import Broken, coq_Z, coq_bool, coq_list, coq_opt
+from common import Broken, coq_Z, coq_bool, coq_list, coq_nat, coq_opt
 from props import c07
 
 FILES = ["gen/EvalArith.v", "Base/Re.v", "Base/Grammar.v", "Model/ReplaceM.v", "Model/SearchM.v", "Model/ConstraintM.v",
          "Model/C03Case.v", "Model/C07Case.v", "Model/C02Case.v", "Proofs/C03.v", "Proofs/C07Search.v", "Proofs/C07.v",
-         "Proofs/C02Arith.v", "Proofs/C02.v", "Props/C02.v"]
+         "Proofs/C02Arith.v", "Proofs/C02.v", "Model/RepBoundsM.v", "Proofs/C02RepBounds.v", "Props/C02.v"]
 HEADER = ("From Coq Require Import List String ZArith NArith Bool Arith.\n"
           "From FV Require Import Base.Re Base.Grammar Model.ReplaceM Model.SearchM Model.ConstraintM Model.C07Case Model.C02Case.\n"
           "Import ListNotations.\nOpen Scope string_scope.\nOpen Scope list_scope.\n")
@@ -58,8 +58,10 @@ def obligations(res):
         "Coq kernel + vm_compute; Flocq and the stdlib real-number axioms (arithmetic half); translator harness/translate_eval.py",
         "counts and per-constraint totals below 2^16 (stated in the theorems); expected_fitness = 1.0 (default); no soft constraints",
         "constraint semantics = the C07 model (hand-written, tied by correspondence); Python expressions = oracle tables; "
-        "RepetitionBoundsConstraint.fitness is not modelled: its (solved,total) results are inputs, and computed repetition bounds of "
-        "emitted trees are judged through an equivalent explicit forall-constraint in the documented semantics",
+        "RepetitionBoundsConstraint.fitness is modelled separately (Model/RepBoundsM.v: grouping by origin_repetitions tags, anchor of a repetition, "
+        "in-bounds test, nearest preceding count field) and compared with the real method on fuzzed and crossover-stirred trees; in the evaluator "
+        "model its (solved,total) results are inputs, and computed repetition bounds of emitted trees are also judged through an equivalent "
+        "explicit forall-constraint in the documented semantics",
     ]
 
 
@@ -161,6 +163,101 @@ def gen_cases(res, seed, n_specs, trees_per):
     if infos:
         res.sample(infos[0])
     return terms, infos
+
+
+RB_HEADER = ("From Coq Require Import List Arith Bool ZArith.\nFrom FV Require Import Model.RepBoundsM.\nImport ListNotations.\nOpen Scope list_scope.\n")
+RB_T = "(tt * bound * bound * option (nat * nat))"
+RB_SPECS = [REP_SCHEMA[0], REP_SCHEMA2[0],
+            '<start> ::= <n> ":" (<a> <b>){1,int(<n>)}\n<n> ::= "1" | "2" | "3"\n<a> ::= "x"\n<b> ::= "y"\n',
+            '<start> ::= <rec>{1,3}\n<rec> ::= <n> "=" (<k> ":" <v> ";"){int(<n>),3} "."\n<n> ::= "1" | "2" | "3"\n<k> ::= "a" | "b"\n<v> ::= "0" | "1"\n',
+            '<start> ::= <m> <m>?\n<m> ::= <h> <b>+\n<h> ::= "#"\n<b> ::= <n> <x>{int(<n>)} <y>{1,int(<n>)+1} ";"\n<n> ::= "1" | "2"\n<x> ::= "p"\n<y> ::= "q"\n']
+
+
+def rb_tt(t, rid):
+    tags = [(it, rd) for (r_, it, rd) in t.origin_repetitions if r_ == rid]
+    tg = coq_list([f"({coq_nat(a)}, {coq_nat(b)})" for a, b in tags])
+    return f"(TT {'true' if t.symbol.is_non_terminal else 'false'} {tg} {coq_list([rb_tt(c, rid) for c in t.children])})"
+
+
+def rb_bound(c, expr_data, root):
+    """the bound expression as the model sees it: a constant, or (path of the match, value) for every match of its search, in search order"""
+    from fandango.language.tree import ChildStep
+    expr, _, searches = expr_data
+    if len(searches) == 0:
+        return f"(BConst {coq_Z(int(eval(expr, c.global_variables, c.local_variables.copy())))})"
+    name, search = next(iter(searches.items()))
+    cands = []
+    for container in search.find(root):
+        n = container.evaluate()
+        steps = n.get_choices_path()
+        if not all(isinstance(st, ChildStep) for st in steps):
+            raise ValueError("source step")
+        loc = c.local_variables.copy()
+        loc[name] = n
+        v = int(eval(expr, c.global_variables, loc))
+        cands.append(f"({coq_list([coq_nat(st.index) for st in steps])}, {coq_Z(v)})")
+    return f"(BSearch {coq_list(cands)})"
+
+
+def rb_worker(args):
+    """RepetitionBoundsConstraint.fitness of the real code vs the model, on fuzzed trees and on trees whose tags were stirred by crossover"""
+    seed, n = args
+    import sys
+    sys.stderr = open("/dev/null", "w")
+    from fandango import Fandango
+    from fandango.constraints.repetition_bounds import RepetitionBoundsConstraint
+    c07.quiet()
+    res = c07.MiniRes()
+    rng = random.Random(seed * 313 + 1)
+    terms, infos = [], []
+    for _ in range(n):
+        spec = rng.choice(RB_SPECS)
+        try:
+            fan = Fandango(spec)
+        except Exception:
+            res.bump("rb_spec_rejected")
+            continue
+        g = fan.grammar
+        reps = [c for c in fan.constraints if isinstance(c, RepetitionBoundsConstraint)]
+        trees = []
+        for _k in range(4):
+            random.seed(rng.randrange(1 << 30))
+            try:
+                trees.append(g.fuzz("<start>", max_nodes=rng.choice([10, 30, 60])))
+            except Exception:
+                pass
+        # crossover between the fuzzed trees: same-symbol subtrees swapped (tags of different parents meet in one tree)
+        for _k in range(3):
+            if len(trees) < 2:
+                break
+            a, b = rng.sample(trees[:4], 2)
+            na = rng.choice([a] + list(a.descendants()))
+            same = [x for x in [b] + list(b.descendants()) if x.symbol == na.symbol and x.symbol.is_non_terminal]
+            if not same or na.parent is None:
+                continue
+            try:
+                trees.append(a.replace(g, na, rng.choice(same)))
+            except Exception:
+                pass
+        for t in trees:
+            if t.size() > 120:
+                continue
+            for c in reps:
+                c.cache = {}
+                real = fit_pair(c, t)
+                try:
+                    term = (f"({rb_tt(t, c.repetition_id)}, {rb_bound(c, c.expr_data_min, t)}, {rb_bound(c, c.expr_data_max, t)}, "
+                            f"{coq_opt(None if real is None else f'({coq_nat(real[0])}, {coq_nat(real[1])})')})")
+                except Exception as e:
+                    res.bump("rb_export_failed_" + type(e).__name__)
+                    continue
+                terms.append(term)
+                infos.append({"spec": spec, "tree": str(t), "repetition": c.repetition_id, "implementation_solved_total": real,
+                              "tags": [(str(x.symbol), [tg for tg in x.origin_repetitions if tg[0] == c.repetition_id]) for x in t.flatten()
+                                       if any(tg[0] == c.repetition_id for tg in x.origin_repetitions)][:20]})
+                res.count(("rb", spec, str(t), c.repetition_id), nontrivial=real is not None and real[1] >= 1)
+                res.bump("rb_raises" if real is None else ("rb_all_in_bounds" if real[0] == real[1] else "rb_some_out_of_bounds"))
+    return (terms, infos), res.hist, res.counts, res.samples
 
 
 def e2e_worker(args):
@@ -270,6 +367,15 @@ def correspondence(res):
     if bad:
         broken = Broken(f"correspondence evaluator: model and implementation differ (or oracle incomplete) on {len(bad)}/{len(codes)} cases",
                         repr(infos[bad[0]]))
+    # RepetitionBoundsConstraint.fitness vs its model
+    nrb = 56 if res.tier == "quick" else 700
+    rterms, rinfos = parallel(res, rb_worker, [(res.seed * 100 + 80 + w, max(1, nrb // W)) for w in range(W)])
+    rcodes = common.run_case_codes("C02", "rb", RB_HEADER, rterms, "c02_rb", chunk=80, ctype=RB_T)
+    rbad = [i for i, v in enumerate(rcodes) if v != 1]
+    res.coverage["repetition_bounds_cases_validated"] = len(rcodes) - len(rbad)
+    if rbad:
+        raise Broken(f"correspondence: RepetitionBoundsConstraint.fitness differs from its model on {len(rbad)}/{len(rcodes)} (tree, constraint) pairs",
+                     repr(rinfos[rbad[0]]))
     e2e(res, 70 if res.tier == "quick" else 420)
     if broken:
         raise broken
